@@ -1,4 +1,5 @@
 import Comdex.Lemmas.LendLtv
+import Comdex.Lemmas.LendAccrual
 /-!
 # C08 — Lending books balance and borrowing is bounded by loan-to-value
 
@@ -28,6 +29,15 @@ interest / reward amounts)
       `C08.borrow_respects_ltv_pledged` (the message level statement: pledged denom = cToken of the pair's collateral asset, valued as
       that asset); regression example for the old witness below it.
 * "… and the pool actually holds the lent-out coins" → `C08.borrow_requires_pool_funds`, `C08.draw_requires_pool_funds`.
+* (depth) accrued interest and rewards — inputs of the identities above — are themselves computed by the model from the RATES in force
+  (`Model/LendAccrual.lean`, compared bit for bit with the real records on every run); their bookkeeping loses nothing:
+    → `C08.accrual_split` (one accrual: interest charged = reserve share + lenders' share, no coin moves, no total changes),
+      `C08.accrual_zero_elapsed` (a second accrual in the same block is the identity), `C08.reward_tracker_conserved` (whole tokens
+      paid + fraction carried = fraction before + reward accrued), `C08.reward_source` (a reward is taken from the accumulated lenders'
+      share or from the reserve), `C08.repay_split`, `C08.closeBorrow_split` (every repayment = reserve share + lenders' share +
+      principal + at most one token of dust).
+* (depth) emergency controls fail closed → `C08.killswitch_rejects_lend_ops`, `C08.killswitch_rejects_borrow_ops`,
+  `C08.guards_reject_new_positions`, `C08.guards_reject_borrow`, `C08.depreciation_rejects`, `C08.rejected_no_change`.
 * "withdrawing or closing a lend position never releases collateral pledged to an open borrow"
     → `C08.withdraw_never_releases_pledged`, `C08.closeLend_never_releases_pledged`.
 -/
@@ -655,5 +665,47 @@ example :
     (step cfgH (setDepreciated stateE 1) (.deposit 1 1 1 5 0)).toBool = false ∧
     (step cfgH (setDepreciated stateE 1) (.repay 1 1 2 5 (.val 0 0))).toBool = true ∧
     (step cfgH (setDepreciated stateE 1) (.withdraw 1 1 1 5 0)).toBool = true := by decide
+
+/-! ## Accrual bookkeeping (amounts computed by the model from the rates in force) -/
+
+/-- **One accrual, in the ledger**: `IterateBorrow` charges `dI` to the borrower and earmarks `dR` (when positive) for the reserve; the
+lenders' share of the accrued interest, `interest − reserve share`, grows by exactly `dI − dR`; no coin moves and no total changes. -/
+theorem accrual_split {s s1 : State} {k : Nat} {dI dR : Dec} {b0 b : Borrow} (h : iterBorrow s k (.val dI dR) = .ok s1)
+    (h0 : getBorrow s.borrows k = some b0) (h1 : getBorrow s1.borrows k = some b) :
+    b.interest = b0.interest + dI ∧ b.reserveInt = b0.reserveInt + (if dR > 0 then dR else 0) ∧
+      (b.interest - b.reserveInt) - (b0.interest - b0.reserveInt) = dI - (if dR > 0 then dR else 0) ∧
+      s1.bank = s.bank ∧ s1.stats = s.stats ∧ s1.lends = s.lends :=
+  iterBorrow_split h h0 h1
+
+/-- **A second accrual in the same block is the identity** (deposit-and-draw accrues twice): nothing is charged, the indices stay. -/
+theorem accrual_zero_elapsed (a : AccB) (amountOut : Int) (stable : Bool) (apr rr : Dec) (now : Int)
+    (hgi : 0 < a.gi) (hrgi : 0 < a.rgi) (ham : 0 ≤ amountOut) (hsr : 0 ≤ a.stableRate) (hnow : LendRates.elapsed now a.last = 0) :
+    accrueBorrow a amountOut stable apr (some rr) now = { ext := .val 0 0, gi := a.gi, rgi := a.rgi } :=
+  accrueBorrow_zero_elapsed a amountOut stable apr rr now hgi hrgi ham hsr hnow
+
+/-- **The reward tracker loses nothing**: whole tokens paid + fraction carried = fraction before + reward accrued; the carried
+fraction stays in `[0, 1)`. -/
+theorem reward_tracker_conserved (a : AccL) (amountIn : Int) (apr : Dec) (now : Int) (per gi' : Dec) (r : LendAccrual)
+    (h : LendRates.lendReward amountIn apr a.gi now a.last = .ok [per, gi']) (hr : accrueLend a amountIn apr now = r) :
+    Dec.ofInt r.reward + r.tracker = a.tracker + per ∧ r.gi = gi' ∧ r.panicked = false ∧
+      (0 ≤ a.tracker + per → 0 ≤ r.reward ∧ 0 ≤ r.tracker ∧ r.tracker < Dec.one) :=
+  accrueLend_conserved a amountIn apr now per gi' r h hr
+
+/-- **Where a lend reward comes from**: from the lenders' share accumulated by repayments when that suffices (it is reduced by the
+reward), otherwise from the reserve, which must hold the coins. -/
+theorem reward_source {cfg : Cfg} {s s' : State} {k : Nat} {r : Int} (h : iterLends cfg s k r = .ok s') (hr : r > 0) :
+    ∃ l st, getLend s.lends k = some l ∧ getStats s.stats l.pool l.asset = some st ∧
+      ((r ≤ st.totalInterest ∧ s'.stats = addTotalLend (addTotalInterest s.stats l.pool l.asset (-r)) l.pool l.asset r) ∨
+       (st.totalInterest < r ∧ r ≤ s.bank.get cfg.reserveAcct l.asset ∧ s'.stats = addTotalLend s.stats l.pool l.asset r)) :=
+  iterLends_source h hr
+
+/-- non-vacuity: one year at 5 % on a principal of 1000 with index 1, reserve rate 1 %: 50 charged, 10 of it for the reserve; and the
+tracker example: 0.7 carried + 0.6 accrued pays 1 token and carries 0.3 -/
+example :
+    (accrueBorrow ⟨1, Dec.one, Dec.one, 1700000000, 0⟩ 1000 false 50000000000000000 (some 10000000000000000) (1700000000 + 31557600)).ext
+      = .val 50000000000000000000 10000000000000000000 ∧
+    (accrueLend ⟨1, Dec.one, 1700000000, 700000000000000000⟩ 6 100000000000000000 (1700000000 + 31557600)).reward = 1 ∧
+    (accrueLend ⟨1, Dec.one, 1700000000, 700000000000000000⟩ 6 100000000000000000 (1700000000 + 31557600)).tracker = 300000000000000000 := by
+  decide
 
 end Comdex.C08
